@@ -26,6 +26,9 @@ def run_hostile(pid, tier, seed, level_rule):
     for stage, extra in stages:
         tf = f"{w}/trace_{stage}.ndjson"
         r = vh(["fuzz", "--stage", stage, "--seed", seed, "--out-trace", tf] + common + extra, name=f"{pid}_{stage}", timeout=7200)
+        if r.get("crashed") == 97 and "hang" in r:
+            v.add_report(r, stage)       # the watchdog names the case itself
+            continue
         if "crashed" in r:
             # an abort (allocation failure, stack overflow) or a hang of the whole process: find the case by journalling
             jp = f"{w}/journal_{stage}"
